@@ -12,6 +12,7 @@ import KinModel.Lemmas.C09Server
 import KinModel.Lemmas.C09Facts
 import KinModel.Lemmas.C09Refine
 import KinModel.Lemmas.C09LegacyRefine
+import KinModel.Lemmas.C09LegacyOrder
 import KinModel.Lemmas.C09Gorilla
 import KinModel.Lemmas.C09Spec
 import KinModel.Lemmas.C09Witness
@@ -216,6 +217,19 @@ theorem legacy_server_none (d : Doc) (r : Req) (sp : List (Str × Str)) (rem : S
   · rename_i h; simp [h, eq_comm]
   · rename_i h
     split <;> simp [h]
+
+/- Full statement (false for the code, finding F-C09-7): the router's answers do not depend on the order in which NewRouter
+   meets the (method, template) pairs — a Go map iteration order.
+   What holds: … when no two different keys share a suffix path (`keyCollision = false`): then every rearrangement of the
+   keys builds the same trie. -/
+theorem legacy_order_independent_partial (setSrv : Bool) (d : Doc) (ks : List Key) (hp : ks.Perm (docKeys d))
+    (hnc : keyCollision (docKeys d) = false) (r : Req) :
+    legacyRootOf ks = legacyRoot d ∧ legacyFindOrd setSrv d ks r = legacyFindOrd setSrv d (docKeys d) r := by
+  have hroot : legacyRootOf ks = legacyRootOf (docKeys d) :=
+    (build_perm hp.symm (noCollision_of_keyCollision hnc) emptyNode).symm
+  refine ⟨hroot, ?_⟩
+  unfold legacyFindOrd legacyMatchOf
+  rw [hroot]
 
 /-- no_match_is_error (legacy): no matching server, or no trie match and no path key spelled by the remaining path,
     yields path-not-found; and the router never answers with the nil-dereference outcome -/
@@ -1134,5 +1148,11 @@ example : d40.servers = [] ∧ (∀ p ∈ d40.paths, p.servers = []) ∧
     legacyMatchOf (docKeys d40) get (s "/a/zz") = some (⟨get, s "/a/{x}"⟩, [s "zz"]) ∧
     (⟨get, s "/a/{x}"⟩ : Key).toks = [.const (s "GET "), .const (s "/"), .const (s "a"), .const (s "/"), .var (s "x")] ∧
     legacyFind d40 (req "GET" "/a/zz") = .route (s "/a/{x}") get [(s "x", s "zz")] .none := by decide +kernel
+
+open W in
+/-- the hypotheses of `legacy_order_independent_partial` hold for the family (no two keys collide) and its reversed key list;
+    they fail for /a next to /a/ -/
+example : keyCollision (docKeys dFam) = false ∧ (docKeys dFam).reverse.Perm (docKeys dFam) ∧ keyCollision (docKeys dColl) = true :=
+  ⟨by decide +kernel, List.reverse_perm _, by decide +kernel⟩
 
 end KinModel.Props.C09
